@@ -85,7 +85,7 @@ def feed (d : DSt) (line : Nat) (e : Event) (k : String) : DSt × String :=
   | none => ({ d with lines := d.lines.push line }, "R ? nopath")
   | some o =>
     let st' := step d.st (withOracle e o)
-    ({ st := st', lines := d.lines.push line }, s!"R {st'.state.idx} {kindName d.st st'}")
+    ({ d with st := st', lines := d.lines.push line }, s!"R {st'.state.idx} {kindName d.st st'}")
 
 /-! ### the run on the real text: conditions about number formats are COMPUTED from the text of the `text` lines -/
 
